@@ -13,6 +13,7 @@ import SodiumModel.Driver.C10
 import SodiumModel.Driver.C05
 import SodiumModel.Driver.C07spec
 import SodiumModel.Driver.C13
+import SodiumModel.Driver.C19
 open Sodium.Driver
 
 def handlers : List (String → List String → Option String) := [
@@ -27,6 +28,7 @@ def handlers : List (String → List String → Option String) := [
   Sodium.Driver.C20.handle,
   Sodium.Driver.C10.handle,
   Sodium.Driver.C13.handle,
+  Sodium.Driver.C19.handle,
   Sodium.Driver.C07spec.handle,
   Sodium.Driver.C05.handle
 ]
